@@ -2,6 +2,7 @@ import BlockCiphers.Proofs.Kuznyechik
 import BlockCiphers.Proofs.AesFixslice
 import BlockCiphers.Proofs.AesNiBytes
 import BlockCiphers.Proofs.Serpent
+import BlockCiphers.Proofs.AesArmv8
 /-
 C03 — cipher output is independent of backend, cfg flags and cargo features
 GENERATED statement file (tools/gen_thm.py): every theorem below restates, verbatim, a theorem of a Proofs/ module
@@ -140,3 +141,66 @@ namespace BC.Serpent
 theorem C03.decrypt_eq_decryptLoop (rk : RoundKeys) (blk : BitVec 128) : decrypt rk blk = decryptLoop rk blk :=
   _root_.BC.Serpent.decrypt_eq_decryptLoop rk blk
 end BC.Serpent
+
+namespace BC.AesArmv8
+open BC BC.X86 BC.Arm BC.Spec.Aes BC.AesNi
+/-- C03 corollary: the ARMv8 backend and the AES-NI backend compute the same function -/
+theorem C03.armv8_encrypt128_eq_ni (key b : BitVec 128) : encrypt128 key b = AesNi.encrypt128 key b :=
+  _root_.BC.AesArmv8.encrypt128_eq_ni key b
+end BC.AesArmv8
+
+namespace BC.AesArmv8
+open BC BC.X86 BC.Arm BC.Spec.Aes BC.AesNi
+theorem C03.armv8_decrypt128_eq_ni (key b : BitVec 128) : decrypt128 key b = AesNi.decrypt128 key b :=
+  _root_.BC.AesArmv8.decrypt128_eq_ni key b
+end BC.AesArmv8
+
+namespace BC.AesArmv8
+open BC BC.X86 BC.Arm BC.Spec.Aes BC.AesNi
+theorem C03.armv8_encrypt192_eq_ni (key : BitVec 192) (b : BitVec 128) : encrypt192 key b = AesNi.encrypt192 key b :=
+  _root_.BC.AesArmv8.encrypt192_eq_ni key b
+end BC.AesArmv8
+
+namespace BC.AesArmv8
+open BC BC.X86 BC.Arm BC.Spec.Aes BC.AesNi
+theorem C03.armv8_decrypt192_eq_ni (key : BitVec 192) (b : BitVec 128) : decrypt192 key b = AesNi.decrypt192 key b :=
+  _root_.BC.AesArmv8.decrypt192_eq_ni key b
+end BC.AesArmv8
+
+namespace BC.AesArmv8
+open BC BC.X86 BC.Arm BC.Spec.Aes BC.AesNi
+theorem C03.armv8_encrypt256_eq_ni (key : BitVec 256) (b : BitVec 128) : encrypt256 key b = AesNi.encrypt256 key b :=
+  _root_.BC.AesArmv8.encrypt256_eq_ni key b
+end BC.AesArmv8
+
+namespace BC.AesArmv8
+open BC BC.X86 BC.Arm BC.Spec.Aes BC.AesNi
+theorem C03.armv8_decrypt256_eq_ni (key : BitVec 256) (b : BitVec 128) : decrypt256 key b = AesNi.decrypt256 key b :=
+  _root_.BC.AesArmv8.decrypt256_eq_ni key b
+end BC.AesArmv8
+
+namespace BC.AesArmv8
+open BC BC.X86 BC.Arm BC.Spec.Aes BC.AesNi
+/-- the ARMv8 and AES-NI hazmat functions agree (C03 for `aes::hazmat`) -/
+theorem C03.armv8_cipher_round_eq_ni (b k : BitVec 128) : cipher_round b k = AesNi.cipher_round b k :=
+  _root_.BC.AesArmv8.cipher_round_eq_ni b k
+end BC.AesArmv8
+
+namespace BC.AesArmv8
+open BC BC.X86 BC.Arm BC.Spec.Aes BC.AesNi
+theorem C03.armv8_equiv_inv_cipher_round_eq_ni (b k : BitVec 128) :
+    equiv_inv_cipher_round b k = AesNi.equiv_inv_cipher_round b k :=
+  _root_.BC.AesArmv8.equiv_inv_cipher_round_eq_ni b k
+end BC.AesArmv8
+
+namespace BC.AesArmv8
+open BC BC.X86 BC.Arm BC.Spec.Aes BC.AesNi
+theorem C03.armv8_mix_columns_eq_ni (b : BitVec 128) : mix_columns b = AesNi.mix_columns b :=
+  _root_.BC.AesArmv8.mix_columns_eq_ni b
+end BC.AesArmv8
+
+namespace BC.AesArmv8
+open BC BC.X86 BC.Arm BC.Spec.Aes BC.AesNi
+theorem C03.armv8_inv_mix_columns_eq_ni (b : BitVec 128) : inv_mix_columns b = AesNi.inv_mix_columns b :=
+  _root_.BC.AesArmv8.inv_mix_columns_eq_ni b
+end BC.AesArmv8
